@@ -132,7 +132,7 @@ func genResult(r *rand.Rand) (ech.ResolveResult, string) {
 			shape += "c"
 		}
 		h.NoDefaultALPN = r.IntN(3) == 0
-		h.Port = uint16([]int{0, 0, 443, 8443}[r.IntN(4)])
+		h.Port = uint16([]int{0, 0, 443, 8443, 80, 0, 8443, 80}[r.IntN(8)])
 		if r.IntN(2) == 0 {
 			h.IPv4Hint = []net.IP{{192, 0, 2, byte(r.IntN(3))}}
 		}
